@@ -28,6 +28,10 @@ CLAIMED = {
          "Exploration with an exhaustive component: all 4^n gene-class sequences for n <= 8 (quick) / 10 (thorough) are enumerated completely; random genomes up to 2000 genes beyond that.",
          "Trusted: the reference parser in harness/src/gen_vm.rs; opening counts (IfElse 2, When/Unless/DupBlock 1) are taken from the property statement, not from the crate.",
          "DESIGN.md §2 C05"),
+ "C10": (PBT + ": tagged parents through all crossover impls with a generated random stream, generated misuse of the exchange primitives, seeded coverage of all two-point segments (len <= 6), exact 2^-len law of uniform-crossover source patterns (Chernoff bound, alpha 1e-12, confirmation stage)",
+         "Exploration: hundreds of thousands (quick) to millions (thorough) of generated recombinations and primitive calls, complete segment coverage for lengths 0..6 over 20000+ seeds, distribution test for lengths 1..4.",
+         "Trusted: rand 0.9 StdRng; the coverage check assumes every admissible segment has probability >= 1/(len+1)^2.",
+         "DESIGN.md §2 C10"),
 }
 NOT_YET = "check not built yet in this revision (work in progress; see DESIGN.md §2 for the planned generated-input check)"
 
